@@ -33,18 +33,21 @@ Definition rows_ok (tol : Q) (ms os : list row6) : bool :=
   else false.
 
 (* the harness tags the observation, action and old log-prob of (t, agent a, env e) with t*64 + a*8 + e + 1 *)
-Definition tagmat (T E a : nat) : list (list Z) :=
-  map (fun t => map (fun e => Z.of_nat (t * 64 + a * 8 + e + 1)) (seq 0 E)) (seq 0 T).
+Definition tagmat_s (S T E a : nat) : list (list Z) :=
+  map (fun t => map (fun e => Z.of_nat (t * S + a * 8 + e + 1)) (seq 0 E)) (seq 0 T).
+Definition tagmat := tagmat_s 64.
 
 Definition check_ppo (vec : bool) (T E : nat) (g l : Q) (R V D : list (list Q)) (nv nd : list Q)
            (tol : Q) (rows : list row6) : bool :=
   let tg := tagmat T E 0 in
   rows_ok tol (ppo_rows vec E g l tg tg tg R V D nv nd) rows.
 
-Definition check_ippo (pinned : bool) (nA E T : nat) (g l : Q) (R V D : list (list (list Q)))
+(* S = stride of the time index in the tags (64; 128 when more than 8 agents share a policy) *)
+Definition check_ippo_s (S : nat) (pinned : bool) (nA E T : nat) (g l : Q) (R V D : list (list (list Q)))
            (nv nd : list (list Q)) (tol : Q) (rows : list row6) : bool :=
-  let tg := map (tagmat T E) (seq 0 nA) in
+  let tg := map (tagmat_s S T E) (seq 0 nA) in
   rows_ok tol ((if pinned then ippo_rows_pinned nA E T else ippo_rows nA E T) g l tg tg tg R V D nv nd) rows.
+Definition check_ippo := check_ippo_s 64.
 
 (* the recorded flags against the scripted episode ends of the environment *)
 Fixpoint listQ_eqb (a b : list Q) : bool :=
